@@ -219,7 +219,8 @@ def gen_c15(seed):
     else:
         fault = GC.gen_fault(r, seed, 0.4)
     case = {"format": 1, "property": "C15", "engine": "samplersim", "kind": "adaptive", "cls": cls, "seed": seed,
-            "rng": H(seed, "rng"), "dom": dom, "n": n, "ratio": r.choice((0.0, 0.25, 0.5, 0.75, 1.0)),
+            "rng": H(seed, "rng"), "dom": dom, "n": n, "ratio": r.choice((0.0, 0.25, 0.5, 0.75, 1.0)) if rnd(seed, "ratio-range").random() < 0.85 else
+            rnd(seed, "ratio-value").choice((-0.5, 1.25, 2.0)),       # the documented threshold min + ratio*(max-min) for any ratio
             "history": hist, "fault": fault}
     rf = rnd(seed, "adaptive-filter")
     if rf.random() < 0.3 and not G.is_boundary(dom):
